@@ -51,98 +51,42 @@ Fixpoint list_go (f : value -> value -> res bool) (la lb : list value) : res boo
   | _, _ => Ok true
   end.
 
-(* Map.Equals after the size check: the entries (k,v) of the receiver m in its order; o := other.Get(k);
-   f o v; stop at the first answer that is not true *)
-Fixpoint map_go (f : value -> value -> res bool) (other m : list (str * value)) : res bool :=
+(* the answer of one entry (k,v) of the receiver against the other map *)
+Definition entry_res (f : value -> value -> res bool) (other : list (str * value)) (k : str) (v : value) : res bool :=
+  match assoc_v k other with Some o => f v o | None => Ok false end.
+
+(* Map.Equals after the size check: the answers of ALL entries of the receiver m, combined by [worse] *)
+Fixpoint map_all (f : value -> value -> res bool) (other m : list (str * value)) : res bool :=
   match m with
-  | (k, v) :: m' =>
-      match assoc_v k other with
-      | Some o => match f o v with Ok true => map_go f other m' | r => r end
-      | None => Ok false
-      end
+  | (k, v) :: m' => worse (entry_res f other k v) (map_all f other m')
   | [] => Ok true
   end.
 
 Definition len_differs {A B} (a : list A) (b : list B) : bool := negb (Nat.eqb (length a) (length b)).
 
-Lemma veqd_list : forall sw la lb,
-  veqd sw (VList la) (VList lb) = if len_differs la lb then Ok false else list_go (veqd sw) la lb.
+(* ---------- the unfolding equations of = : they read like the Go code ---------- *)
+
+Lemma veq_list_eq : forall la lb,
+  veq (VList la) (VList lb) = if len_differs la lb then Ok false else list_go veq la lb.
 Proof.
-  intros sw la lb. unfold len_differs. cbn [veqd]. destruct (negb (Nat.eqb (length la) (length lb))); [reflexivity|].
+  intros la lb. unfold len_differs. cbn [veq]. destruct (negb (Nat.eqb (length la) (length lb))); [reflexivity|].
   revert lb. induction la as [|x la IH]; intros [|y lb]; cbn [list_go]; try reflexivity.
-  destruct (veqd sw x y) as [[|]| | | |]; try reflexivity. apply IH.
+  destruct (veq x y) as [[|]| | | |]; try reflexivity. apply IH.
 Qed.
 
-Lemma veqd_map_false : forall ma mb,
-  veqd false (VMap ma) (VMap mb) =
-  if len_differs ma mb then Ok false else map_go (fun o v => veqd true v o) mb ma.
+Lemma veq_map_eq : forall ma mb,
+  veq (VMap ma) (VMap mb) = if len_differs ma mb then Ok false else map_all veq mb ma.
 Proof.
-  intros ma mb. unfold len_differs. cbn [veqd]. destruct (negb (Nat.eqb (length ma) (length mb))); [reflexivity|].
-  induction ma as [|[k v] ma IH]; cbn [map_go]; [reflexivity|].
-  destruct (assoc_v k mb) as [o|]; [|reflexivity].
-  destruct (veqd true v o) as [[|]| | | |]; try reflexivity. apply IH.
+  intros ma mb. unfold len_differs. cbn [veq]. destruct (negb (Nat.eqb (length ma) (length mb))); [reflexivity|].
+  induction ma as [|[k v] ma IH]; cbn [map_all]; [reflexivity|]. unfold entry_res at 1. rewrite IH. reflexivity.
 Qed.
 
-Lemma veqd_map_true : forall ma mb,
-  veqd true (VMap ma) (VMap mb) =
-  if len_differs ma mb then Ok false else map_go (fun o vb => veqd false o vb) ma mb.
-Proof.
-  intros ma mb. unfold len_differs. cbn [veqd]. destruct (negb (Nat.eqb (length ma) (length mb))); [reflexivity|].
-  induction mb as [|[k vb] mb IH]; cbn [map_go]; [reflexivity|].
-  (* the inner find is assoc_v followed by the comparison *)
-  match goal with |- ?F ma = _ => set (find := F) end.
-  assert (Hfind : forall m, find m = match assoc_v k m with
-                                     | Some o => match veqd false o vb with
-                                                 | Ok true => (fix gob (mb0 : list (str * value)) : res bool :=
-                                                       match mb0 with
-                                                       | [] => Ok true
-                                                       | (k0, vb0) :: mb' =>
-                                                           (fix find0 (m0 : list (str * value)) : res bool :=
-                                                              match m0 with
-                                                              | [] => Ok false
-                                                              | (k', o0) :: m' =>
-                                                                  if str_eqb k0 k'
-                                                                  then match veqd false o0 vb0 with
-                                                                       | Ok true => gob mb'
-                                                                       | r => r
-                                                                       end
-                                                                  else find0 m'
-                                                              end) ma
-                                                       end) mb
-                                                 | r => r
-                                                 end
-                                     | None => Ok false
-                                     end).
-  { induction m as [|[k' o] m IHm]; [reflexivity|]. subst find. cbn [assoc_v].
-    destruct (str_eqb k k'); [reflexivity|]. apply IHm. }
-  rewrite Hfind. destruct (assoc_v k ma) as [o|]; [|reflexivity].
-  destruct (veqd false o vb) as [[|]| | | |]; try reflexivity. apply IH.
-Qed.
-
-Lemma veqd_scalar : forall sw a b,
+Lemma veq_scalar_eq : forall a b,
   match a, b with
   | VList _, VList _ | VMap _, VMap _ => True
-  | _, _ => veqd sw a b = if sw then eq_scalar b a else eq_scalar a b
+  | _, _ => veq a b = eq_scalar a b
   end.
-Proof. intros sw a b. destruct a, b; try exact I; reflexivity. Qed.
-
-(* ---------- extensionality of the loops ---------- *)
-
-Lemma list_go_ext : forall f g la lb,
-  Forall (fun x => forall y, f x y = g x y) la -> list_go f la lb = list_go g la lb.
-Proof.
-  intros f g la. induction la as [|x la IH]; intros lb H; [reflexivity|].
-  destruct lb as [|y lb]; [reflexivity|]. cbn [list_go]. inversion H as [|? ? Hx Hr]; subst.
-  rewrite Hx. destruct (g x y) as [[|]| | | |]; try reflexivity. apply IH. exact Hr.
-Qed.
-
-Lemma list_go_ext_r : forall f g la lb,
-  Forall (fun y => forall x, f x y = g x y) lb -> list_go f la lb = list_go g la lb.
-Proof.
-  intros f g la. induction la as [|x la IH]; intros lb H; [reflexivity|].
-  destruct lb as [|y lb]; [reflexivity|]. cbn [list_go]. inversion H as [|? ? Hy Hr]; subst.
-  rewrite Hy. destruct (g x y) as [[|]| | | |]; try reflexivity. apply IH. exact Hr.
-Qed.
+Proof. intros a b. destruct a, b; try exact I; reflexivity. Qed.
 
 Lemma assoc_v_in : forall k m o, assoc_v k m = Some o -> In (k, o) m.
 Proof.
@@ -152,84 +96,52 @@ Proof.
   - intros H. right. apply IH. exact H.
 Qed.
 
-(* f and g agree whenever the receiver's value is one of m's *)
-Lemma map_go_ext_recv : forall f g other m,
-  Forall (fun kv => forall o, f o (snd kv) = g o (snd kv)) m -> map_go f other m = map_go g other m.
-Proof.
-  intros f g other m. induction m as [|[k v] m IH]; intros H; [reflexivity|].
-  cbn [map_go]. inversion H as [|? ? Hv Hr]; subst. cbn [snd] in Hv.
-  destruct (assoc_v k other) as [o|]; [|reflexivity]. rewrite Hv.
-  destruct (g o v) as [[|]| | | |]; try reflexivity. apply IH. exact Hr.
-Qed.
-
-(* f and g agree whenever the other's value is one of other's *)
-Lemma map_go_ext_other : forall f g other m,
-  Forall (fun kv => forall v, f (snd kv) v = g (snd kv) v) other -> map_go f other m = map_go g other m.
-Proof.
-  intros f g other m H. induction m as [|[k v] m IH]; [reflexivity|].
-  cbn [map_go]. destruct (assoc_v k other) as [o|] eqn:E; [|reflexivity].
-  apply assoc_v_in in E. rewrite Forall_forall in H. specialize (H _ E). cbn [snd] in H. rewrite H.
-  destruct (g o v) as [[|]| | | |]; try reflexivity. exact IH.
-Qed.
-
-(* ================================================================= both recursion schemes agree *)
-
 Lemma len_differs_sym : forall {A B} (a : list A) (b : list B), len_differs a b = len_differs b a.
 Proof. intros. unfold len_differs. rewrite Nat.eqb_sym. reflexivity. Qed.
 
-Lemma veqd_flip_both : forall a b,
-  veqd true a b = veqd false b a /\ veqd true b a = veqd false a b.
+(* ---------- [worse] is a maximum ---------- *)
+
+Definition rank (r : res bool) : nat :=
+  match r with Ok true => 0 | Ok false => 1 | Unsup => 2 | Err _ => 3 | Panic => 4 | OOF => 5 end.
+
+(* the answers = can give: no thrown text in an error *)
+Definition canon (r : res bool) : Prop := match r with Err (Some _) => False | _ => True end.
+
+Lemma rank_worse : forall a b, rank (worse a b) = Nat.max (rank a) (rank b).
+Proof. intros [[|]| | | |] [[|]| | | |]; reflexivity. Qed.
+
+Lemma canon_worse : forall a b, canon a -> canon b -> canon (worse a b).
+Proof. intros [[|]|[?|]| | |] [[|]|[?|]| | |]; cbn; tauto. Qed.
+
+Lemma rank_inj : forall a b, canon a -> canon b -> rank a = rank b -> a = b.
+Proof. intros [[|]|[?|]| | |] [[|]|[?|]| | |]; cbn; try tauto; try discriminate; reflexivity. Qed.
+
+Lemma worse_ok : forall a b r, worse a b = Ok r -> exists x y, a = Ok x /\ b = Ok y /\ r = x && y.
+Proof. intros [[|]| | | |] [[|]| | | |] r H; cbn in H; try discriminate; inversion H; subst; eauto. Qed.
+
+Lemma worse_true : forall a b, worse a b = Ok true <-> a = Ok true /\ b = Ok true.
+Proof. intros [[|]| | | |] [[|]| | | |]; cbn; split; try tauto; try discriminate; intros [? ?]; discriminate. Qed.
+
+Lemma map_all_ge : forall f other m k v, In (k, v) m -> (rank (entry_res f other k v) <= rank (map_all f other m))%nat.
 Proof.
-  intros a. induction a as [z|f|s|x|la IH|ma IH|ps body cap self|t] using value_ind2; intros b;
-    try (destruct b; split; reflexivity).
-  - (* lists *)
-    destruct b as [| | | |lb| | |]; try (split; reflexivity).
-    rewrite !veqd_list. rewrite (len_differs_sym lb la). destruct (len_differs la lb); [split; reflexivity|].
-    split.
-    + clear -IH. revert lb. induction la as [|x la IHl]; intros lb.
-      * destruct lb; reflexivity.
-      * destruct lb as [|y lb]; [reflexivity|]. cbn [list_go]. inversion IH as [|? ? Hx Hr]; subst.
-        destruct (Hx y) as [E _]. rewrite E. destruct (veqd false y x) as [[|]| | | |]; try reflexivity.
-        apply IHl. exact Hr.
-    + clear -IH. revert lb. induction la as [|x la IHl]; intros lb.
-      * destruct lb; reflexivity.
-      * destruct lb as [|y lb]; [reflexivity|]. cbn [list_go]. inversion IH as [|? ? Hx Hr]; subst.
-        destruct (Hx y) as [_ E]. rewrite E. destruct (veqd false x y) as [[|]| | | |]; try reflexivity.
-        apply IHl. exact Hr.
-  - (* maps *)
-    destruct b as [| | | | |mb| |]; try (split; reflexivity).
-    rewrite !veqd_map_true, !veqd_map_false. rewrite (len_differs_sym mb ma).
-    destruct (len_differs ma mb); [split; reflexivity|]. split.
-    + (* other = ma: the other's value o is one of ma's *)
-      apply map_go_ext_other. rewrite Forall_forall in IH |- *. intros kv Hin v.
-      destruct (IH kv Hin v) as [_ E]. symmetry. exact E.
-    + (* receiver = ma *)
-      apply map_go_ext_recv. rewrite Forall_forall in IH |- *. intros kv Hin o.
-      destruct (IH kv Hin o) as [E _]. symmetry. exact E.
+  intros f other m k v. induction m as [|[k' v'] m IH]; [intros []|].
+  cbn [map_all]. rewrite rank_worse. intros [E|Hin]; [inversion E; subst; lia|]. specialize (IH Hin). lia.
 Qed.
 
-Lemma veqd_true : forall a b, veqd true a b = veq b a.
-Proof. intros a b. unfold veq. apply veqd_flip_both. Qed.
-
-(* ---------- the unfolding equations of = : they read exactly like the Go code ---------- *)
-
-Lemma veq_list_eq : forall la lb,
-  veq (VList la) (VList lb) = if len_differs la lb then Ok false else list_go veq la lb.
-Proof. intros. unfold veq. apply veqd_list. Qed.
-
-Lemma veq_map_eq : forall ma mb,
-  veq (VMap ma) (VMap mb) = if len_differs ma mb then Ok false else map_go veq mb ma.
+Lemma map_all_le : forall f other m n,
+  (forall k v, In (k, v) m -> (rank (entry_res f other k v) <= n)%nat) -> (rank (map_all f other m) <= n)%nat.
 Proof.
-  intros. unfold veq at 1. rewrite veqd_map_false. destruct (len_differs ma mb); [reflexivity|].
-  apply map_go_ext_recv. apply Forall_forall. intros kv _ o. apply veqd_true.
+  intros f other m n. induction m as [|[k v] m IH]; intros H; cbn [map_all]; [cbn; lia|].
+  rewrite rank_worse. apply Nat.max_lub; [apply H; left; reflexivity|apply IH; intros k' v' Hin; apply H; right; exact Hin].
 Qed.
 
-Lemma veq_scalar_eq : forall a b,
-  match a, b with
-  | VList _, VList _ | VMap _, VMap _ => True
-  | _, _ => veq a b = eq_scalar a b
-  end.
-Proof. intros a b. exact (veqd_scalar false a b). Qed.
+Lemma map_all_canon : forall f other m,
+  (forall k v, In (k, v) m -> canon (entry_res f other k v)) -> canon (map_all f other m).
+Proof.
+  intros f other m. induction m as [|[k v] m IH]; intros H; cbn [map_all]; [exact I|].
+  apply canon_worse; [apply H; left; reflexivity|apply IH; intros k' v' Hin; apply H; right; exact Hin].
+Qed.
+
 
 (* ================================================================= exact comparison of dyadic numbers *)
 
@@ -623,24 +535,6 @@ Proof.
   - exact Hincl.
 Qed.
 
-(* if every entry of ma has a partner in mb related by R1, then every entry of mb has a partner in ma *)
-Lemma map_partner_swap : forall (R1 R2 : value -> value -> Prop) ma mb,
-  nodup_keys ma = true -> nodup_keys mb = true -> length ma = length mb ->
-  (forall k v, In (k, v) ma -> exists o, assoc_v k mb = Some o /\ R1 o v) ->
-  (forall k v o, In (k, v) ma -> In (k, o) mb -> R1 o v -> R2 v o) ->
-  forall k o, In (k, o) mb -> exists v, assoc_v k ma = Some v /\ R2 v o.
-Proof.
-  intros R1 R2 ma mb Ha Hb Hlen H Hbridge k o Hin.
-  assert (Hk : In k (map fst ma)).
-  { apply (keys_cover ma mb Ha Hlen).
-    - intros k' Hk'. apply in_keys_assoc in Hk'. destruct Hk' as [v Hv]. apply assoc_v_in in Hv.
-      destruct (H _ _ Hv) as (o' & Ho' & _). eapply assoc_in_keys. exact Ho'.
-    - apply (in_map fst) in Hin. exact Hin. }
-  apply in_keys_assoc in Hk. destruct Hk as [v Hv]. exists v. split; [exact Hv|].
-  apply assoc_v_in in Hv. destruct (H _ _ Hv) as (o' & Ho' & HR).
-  rewrite (nodup_keys_in mb k o Hb Hin) in Ho'. inversion Ho'; subst. eapply Hbridge; eassumption.
-Qed.
-
 (* ---------- what the loops say ---------- *)
 
 Lemma list_go_true : forall f la lb, length la = length lb ->
@@ -654,33 +548,20 @@ Proof.
     + intros H. inversion H; subst. rewrite H3. apply IH; [lia|assumption].
 Qed.
 
-Lemma map_go_true : forall f other m,
-  map_go f other m = Ok true <->
-  (forall k v, In (k, v) m -> exists o, assoc_v k other = Some o /\ f o v = Ok true).
+Lemma map_all_true : forall f other m,
+  map_all f other m = Ok true <->
+  (forall k v, In (k, v) m -> exists o, assoc_v k other = Some o /\ f v o = Ok true).
 Proof.
-  intros f other m. induction m as [|[k v] m IH]; cbn [map_go].
+  intros f other m. induction m as [|[k v] m IH]; cbn [map_all].
   - split; [intros _ k v []|reflexivity].
-  - split.
-    + intros H k' v' [Heq|Hin].
-      * inversion Heq; subst. destruct (assoc_v k' other) as [o|]; [|discriminate].
-        exists o. split; [reflexivity|]. destruct (f o v') as [[|]| | | |]; try discriminate; reflexivity.
-      * destruct (assoc_v k other) as [o|]; [|discriminate].
-        destruct (f o v) as [[|]| | | |]; try discriminate. apply IH; assumption.
-    + intros H. destruct (H k v (or_introl eq_refl)) as (o & Ho & Hf). rewrite Ho, Hf.
-      apply IH. intros k' v' Hin. apply H. right. exact Hin.
+  - rewrite worse_true, IH. unfold entry_res. split.
+    + intros [H1 H2] k' v' [Heq|Hin]; [|apply H2; exact Hin].
+      inversion Heq; subst. destruct (assoc_v k' other) as [o|]; [eauto|discriminate].
+    + intros H. split.
+      * destruct (H k v (or_introl eq_refl)) as (o & Ho & Hf). rewrite Ho. exact Hf.
+      * intros k' v' Hin. apply H. right. exact Hin.
 Qed.
 
-Lemma map_go_false : forall f other m, map_go f other m = Ok false ->
-  exists k v, In (k, v) m /\
-    (assoc_v k other = None \/ exists o, assoc_v k other = Some o /\ f o v = Ok false).
-Proof.
-  intros f other m. induction m as [|[k v] m IH]; cbn [map_go]; [discriminate|].
-  destruct (assoc_v k other) as [o|] eqn:E.
-  - destruct (f o v) as [[|]| | | |] eqn:Ef; try discriminate.
-    + intros H. destruct (IH H) as (k' & v' & Hin & Hc). exists k', v'. split; [right; exact Hin|exact Hc].
-    + intros _. exists k, v. split; [left; reflexivity|]. right. exists o. auto.
-  - intros _. exists k, v. split; [left; reflexivity|]. left. exact E.
-Qed.
 
 (* ---------- unfolding of the side conditions ---------- *)
 
@@ -707,20 +588,6 @@ Qed.
 Lemma clean_val_map : forall m, clean_val (VMap m) = true -> Forall (fun kv => clean_val (snd kv) = true) m.
 Proof.
   intros m. cbn [clean_val]. induction m as [|[k x] m IH]; intros H; [constructor|].
-  apply andb_true_iff in H. destruct H. constructor; auto.
-Qed.
-
-Lemma narrow_maps_list : forall l, narrow_maps (VList l) = true -> Forall (fun x => narrow_maps x = true) l.
-Proof.
-  intros l. cbn [narrow_maps]. induction l as [|x l IH]; intros H; [constructor|].
-  apply andb_true_iff in H. destruct H. constructor; auto.
-Qed.
-
-Lemma narrow_maps_map : forall m, narrow_maps (VMap m) = true ->
-  (length m <= 1)%nat /\ Forall (fun kv => narrow_maps (snd kv) = true) m.
-Proof.
-  intros m. cbn [narrow_maps]. intros H. apply andb_true_iff in H. destruct H as [Hn H].
-  split; [apply Nat.leb_le; exact Hn|]. clear Hn. induction m as [|[k x] m IH]; [constructor|].
   apply andb_true_iff in H. destruct H. constructor; auto.
 Qed.
 
@@ -756,65 +623,110 @@ Lemma veq_scalar_l : forall a b,
   veq a b = eq_scalar a b /\ veq b a = eq_scalar b a.
 Proof. intros a b. destruct a; intros H; try contradiction; destruct b; split; reflexivity. Qed.
 
-(* ================================================================= = is symmetric as far as "true" goes *)
+(* ================================================================= = is symmetric *)
 
-Lemma veq_true_sym_iff : forall a b, wf_keys a = true -> wf_keys b = true ->
-  (veq a b = Ok true <-> veq b a = Ok true).
+Lemma list_go_swap : forall f la lb,
+  (forall x y, In x la -> In y lb -> f x y = f y x) -> list_go f la lb = list_go f lb la.
+Proof.
+  intros f la. induction la as [|x la IH]; intros lb H.
+  - destruct lb; reflexivity.
+  - destruct lb as [|y lb]; [reflexivity|]. cbn [list_go].
+    rewrite (H x y (or_introl eq_refl) (or_introl eq_refl)). destruct (f y x) as [[|]| | | |]; try reflexivity.
+    apply IH. intros x' y' Hx Hy. apply H; right; assumption.
+Qed.
+
+Lemma eq_scalar_canon : forall a b, canon (eq_scalar a b).
+Proof. intros a b. destruct a, b; cbn; try exact I; destruct (fl_of_int _); exact I. Qed.
+
+Lemma list_go_canon : forall f la lb,
+  (forall x y, In x la -> canon (f x y)) -> canon (list_go f la lb).
+Proof.
+  intros f la. induction la as [|x la IH]; intros lb H; [exact I|]. destruct lb as [|y lb]; [exact I|].
+  cbn [list_go]. pose proof (H x y (or_introl eq_refl)) as Hc.
+  destruct (f x y) as [[|]|[?|]| | |]; try exact I; try contradiction.
+  apply IH. intros x' y' Hx. apply H. right. exact Hx.
+Qed.
+
+Lemma veq_canon : forall a b, canon (veq a b).
+Proof.
+  intros a. induction a as [z|f|s|x|la IH|ma IH|ps body cap self|t] using value_ind2; intros b;
+    try (destruct b; apply eq_scalar_canon).
+  - destruct b as [| | | |lb| | |]; try apply (eq_scalar_canon (VList la)).
+    rewrite veq_list_eq. destruct (len_differs la lb); [exact I|].
+    apply list_go_canon. rewrite Forall_forall in IH. intros x y Hx. apply IH. exact Hx.
+  - destruct b as [| | | | |mb| |]; try apply (eq_scalar_canon (VMap ma)).
+    rewrite veq_map_eq. destruct (len_differs ma mb); [exact I|].
+    apply map_all_canon. rewrite Forall_forall in IH. intros k v Hin. unfold entry_res.
+    destruct (assoc_v k mb) as [o|]; [apply (IH (k, v) Hin)|exact I].
+Qed.
+
+Lemma map_all_veq_canon : forall other m, canon (map_all veq other m).
+Proof.
+  intros other m. apply map_all_canon. intros k v _. unfold entry_res.
+  destruct (assoc_v k other); [apply veq_canon|exact I].
+Qed.
+
+(* one half of the symmetry on maps: every answer of an entry of ma is matched by an entry of mb *)
+Lemma map_all_rank_le : forall ma mb,
+  nodup_keys ma = true -> nodup_keys mb = true -> length ma = length mb ->
+  (forall k v o, In (k, v) ma -> In (k, o) mb -> veq v o = veq o v) ->
+  (rank (map_all veq mb ma) <= rank (map_all veq ma mb))%nat.
+Proof.
+  intros ma mb Hna Hnb L Hsym. apply map_all_le. intros k v Hin. unfold entry_res.
+  destruct (assoc_v k mb) as [o|] eqn:E.
+  - pose proof (assoc_v_in _ _ _ E) as Ho.
+    pose proof (map_all_ge veq ma mb k o Ho) as G. unfold entry_res in G.
+    rewrite (nodup_keys_in ma k v Hna Hin) in G. rewrite (Hsym k v o Hin Ho). exact G.
+  - cbn [rank]. destruct (rank (map_all veq ma mb)) as [|n] eqn:R; [exfalso|lia].
+    (* all entries of mb answer true: their keys are keys of ma, hence (pigeonhole) k is a key of mb *)
+    apply assoc_v_none in E. apply E.
+    apply (keys_cover mb ma Hnb (eq_sym L)); [|apply (in_map fst) in Hin; exact Hin].
+    intros k' Hk'. apply in_keys_assoc in Hk'. destruct Hk' as [o' Ho']. apply assoc_v_in in Ho'.
+    pose proof (map_all_ge veq ma mb k' o' Ho') as G. rewrite R in G. unfold entry_res in G.
+    destruct (assoc_v k' ma) as [v'|] eqn:E'; [eapply assoc_in_keys; exact E'|cbn in G; lia].
+Qed.
+
+Lemma veq_sym : forall a b, wf_keys a = true -> wf_keys b = true -> veq a b = veq b a.
 Proof.
   intros a. induction a as [z|f|s|x|la IH|ma IH|ps body cap self|t] using value_ind2; intros b Ha Hb;
-    try (match goal with |- veq ?a b = _ <-> _ => destruct (veq_scalar_l a b I) as [E1 E2] end;
-         rewrite E1, E2, eq_scalar_sym; reflexivity).
+    try (match goal with |- veq ?a b = _ => destruct (veq_scalar_l a b I) as [E1 E2] end;
+         rewrite E1, E2; apply eq_scalar_sym).
   - destruct b as [| | | |lb| | |];
-      try (match goal with |- veq ?a ?b = _ <-> _ => destruct (veq_not_both a b I) as [E1 E2] end;
-           rewrite E1, E2, eq_scalar_sym; reflexivity).
-    rewrite !veq_list_eq, (len_differs_sym lb la). destruct (len_differs la lb) eqn:L; [reflexivity|].
-    apply len_differs_false in L. rewrite (list_go_true veq la lb L), (list_go_true veq lb la (eq_sym L)).
-    apply wf_keys_list in Ha. apply wf_keys_list in Hb. clear L.
-    revert lb Hb. induction la as [|x la IHl]; intros lb Hb.
-    + split; intros H; inversion H; constructor.
-    + inversion IH as [|? ? Hx Hr]; subst. inversion Ha as [|? ? Hax Har]; subst.
-      split; intros H.
-      * inversion H as [|? y ? lb' Hxy Hrest]; subst. inversion Hb as [|? ? Hby Hbr]; subst.
-        constructor; [apply (Hx y Hax Hby); exact Hxy|apply (IHl Hr Har lb' Hbr); exact Hrest].
-      * inversion H as [|y ? lb' ? Hxy Hrest]; subst. inversion Hb as [|? ? Hby Hbr]; subst.
-        constructor; [apply (Hx y Hax Hby); exact Hxy|apply (IHl Hr Har lb' Hbr); exact Hrest].
+      try (match goal with |- veq ?a ?b = _ => destruct (veq_not_both a b I) as [E1 E2] end;
+           rewrite E1, E2; apply eq_scalar_sym).
+    rewrite !veq_list_eq, (len_differs_sym lb la). destruct (len_differs la lb); [reflexivity|].
+    apply wf_keys_list in Ha. apply wf_keys_list in Hb. rewrite Forall_forall in IH, Ha, Hb.
+    apply list_go_swap. intros x y Hx Hy. apply IH; auto.
   - destruct b as [| | | | |mb| |];
-      try (match goal with |- veq ?a ?b = _ <-> _ => destruct (veq_not_both a b I) as [E1 E2] end;
-           rewrite E1, E2, eq_scalar_sym; reflexivity).
+      try (match goal with |- veq ?a ?b = _ => destruct (veq_not_both a b I) as [E1 E2] end;
+           rewrite E1, E2; apply eq_scalar_sym).
     rewrite !veq_map_eq, (len_differs_sym mb ma). destruct (len_differs ma mb) eqn:L; [reflexivity|].
-    apply len_differs_false in L. rewrite !map_go_true.
+    apply len_differs_false in L.
     apply wf_keys_map in Ha. destruct Ha as [Hna Hwa]. apply wf_keys_map in Hb. destruct Hb as [Hnb Hwb].
     rewrite Forall_forall in IH, Hwa, Hwb.
-    split; intros H.
-    + (* every entry of ma has an equal partner in mb => every entry of mb has one in ma *)
-      apply (map_partner_swap (fun o v => veq o v = Ok true) (fun v o => veq v o = Ok true) ma mb Hna Hnb L H).
-      intros k v o Hv Ho Hov. pose proof (IH (k, v) Hv o (Hwa (k, v) Hv) (Hwb (k, o) Ho)) as IHv. cbn [snd] in IHv.
-      apply IHv. exact Hov.
-    + apply (map_partner_swap (fun v o => veq v o = Ok true) (fun o v => veq o v = Ok true) mb ma Hnb Hna (eq_sym L) H).
-      intros k o v Ho Hv Hvo. pose proof (IH (k, v) Hv o (Hwa (k, v) Hv) (Hwb (k, o) Ho)) as IHv. cbn [snd] in IHv.
-      apply IHv. exact Hvo.
+    assert (Hsym : forall k v o, In (k, v) ma -> In (k, o) mb -> veq v o = veq o v).
+    { intros k v o Hv Ho. exact (IH (k, v) Hv o (Hwa (k, v) Hv) (Hwb (k, o) Ho)). }
+    apply rank_inj; [apply map_all_veq_canon|apply map_all_veq_canon|].
+    apply Nat.le_antisymm.
+    + apply map_all_rank_le; assumption.
+    + apply map_all_rank_le; try assumption; [symmetry; exact L|].
+      intros k o v Ho Hv. symmetry. apply (Hsym k v o Hv Ho).
 Qed.
 
-Lemma veq_sym_true : forall a b, wf_keys a = true -> wf_keys b = true ->
-  veq a b = Ok true -> veq b a = Ok true.
-Proof. intros a b Ha Hb. apply veq_true_sym_iff; assumption. Qed.
-
-(* two booleans are never different *)
-Lemma veq_sym_bool : forall a b x y, wf_keys a = true -> wf_keys b = true ->
-  veq a b = Ok x -> veq b a = Ok y -> x = y.
-Proof.
-  intros a b x y Ha Hb H1 H2. destruct x, y; try reflexivity.
-  - apply (veq_sym_true a b Ha Hb) in H1. congruence.
-  - apply (veq_sym_true b a Hb Ha) in H2. congruence.
-Qed.
-
-(* the full symmetry a=b <-> b=a as outcomes fails: one side false, the other an error *)
+(* the input on which = used to answer false one way and an error the other way (before the repair
+   of Map.Equals): now an error both ways *)
 Definition sym_witness_a : value := VMap [([97%N], VInt 1); ([98%N], VStr [120%N])].
 Definition sym_witness_b : value := VMap [([98%N], VInt 1); ([97%N], VInt 2)].
 
-Lemma veq_sym_refuted : exists a b, wf_keys a = true /\ wf_keys b = true /\ clean_val a = true /\ clean_val b = true /\
-  veq a b = Ok false /\ veq b a = Err None.
-Proof. exists sym_witness_a, sym_witness_b. vm_compute. repeat split; reflexivity. Qed.
+Lemma veq_sym_witness : veq sym_witness_a sym_witness_b = Err None /\ veq sym_witness_b sym_witness_a = Err None.
+Proof. split; reflexivity. Qed.
+
+(* without pairwise different keys the association-list model is not symmetric (not a map value) *)
+Lemma veq_sym_needs_wf :
+  let a := VMap [([97%N], VInt 1); ([97%N], VInt 2)] in let b := VMap [([97%N], VInt 1); ([98%N], VInt 2)] in
+  veq a b = Ok false /\ veq b a = Ok false /\
+  veq (VMap [([97%N], VInt 1); ([97%N], VInt 2)]) (VMap [([97%N], VInt 2); ([97%N], VInt 1)]) = Ok false.
+Proof. cbv zeta. repeat split; reflexivity. Qed.
 
 (* ================================================================= = is reflexive *)
 
@@ -838,7 +750,7 @@ Proof.
     induction la as [|x la IHl]; [constructor|].
     inversion IH; subst. inversion Hw; subst. inversion Hc; subst. constructor; auto.
   - rewrite veq_map_eq. replace (len_differs ma ma) with false by (symmetry; apply len_differs_false; reflexivity).
-    apply map_go_true. apply wf_keys_map in Hw. destruct Hw as [Hn Hw]. apply clean_val_map in Hc.
+    apply map_all_true. apply wf_keys_map in Hw. destruct Hw as [Hn Hw]. apply clean_val_map in Hc.
     rewrite Forall_forall in IH, Hw, Hc. intros k v Hin. exists v. split; [apply nodup_keys_in; assumption|].
     apply (IH (k, v) Hin); [exact (Hw (k, v) Hin)|exact (Hc (k, v) Hin)].
 Qed.
@@ -847,41 +759,6 @@ Qed.
 Lemma veq_refl_refuted :
   veq (VFloat FNaN) (VFloat FNaN) = Ok false /\ veq (VClo [] (AConst (VInt 0)) [] []) (VClo [] (AConst (VInt 0)) [] []) = Err None.
 Proof. split; reflexivity. Qed.
-
-(* ================================================================= full symmetry when no map has two entries *)
-
-Lemma list_go_swap : forall f la lb,
-  Forall (fun x => forall y, f x y = f y x) la -> list_go f la lb = list_go f lb la.
-Proof.
-  intros f la. induction la as [|x la IH]; intros lb H.
-  - destruct lb; reflexivity.
-  - destruct lb as [|y lb]; [reflexivity|]. cbn [list_go]. inversion H as [|? ? Hx Hr]; subst.
-    rewrite Hx. destruct (f y x) as [[|]| | | |]; try reflexivity. apply IH. exact Hr.
-Qed.
-
-Lemma veq_sym_narrow : forall a b, narrow_maps a = true -> veq a b = veq b a.
-Proof.
-  intros a. induction a as [z|f|s|x|la IH|ma IH|ps body cap self|t] using value_ind2; intros b Hn;
-    try (match goal with |- veq ?a b = _ => destruct (veq_scalar_l a b I) as [E1 E2] end;
-         rewrite E1, E2; apply eq_scalar_sym).
-  - destruct b as [| | | |lb| | |];
-      try (match goal with |- veq ?a ?b = _ => destruct (veq_not_both a b I) as [E1 E2] end;
-           rewrite E1, E2; apply eq_scalar_sym).
-    rewrite !veq_list_eq, (len_differs_sym lb la). destruct (len_differs la lb); [reflexivity|].
-    apply list_go_swap. apply narrow_maps_list in Hn. rewrite Forall_forall in IH, Hn |- *.
-    intros x Hx y. apply IH; auto.
-  - destruct b as [| | | | |mb| |];
-      try (match goal with |- veq ?a ?b = _ => destruct (veq_not_both a b I) as [E1 E2] end;
-           rewrite E1, E2; apply eq_scalar_sym).
-    rewrite !veq_map_eq, (len_differs_sym mb ma). destruct (len_differs ma mb) eqn:L; [reflexivity|].
-    apply len_differs_false in L. apply narrow_maps_map in Hn. destruct Hn as [Hlen Hn].
-    destruct ma as [|[k v] [|? ?]]; cbn in Hlen; try lia.
-    + destruct mb; [reflexivity|discriminate].
-    + destruct mb as [|[k' o] [|? ?]]; try discriminate. cbn [map_go assoc_v].
-      rewrite (str_eqb_sym k' k). destruct (str_eqb k k'); [|reflexivity].
-      inversion IH as [|? ? Hv _]; subst. inversion Hn as [|? ? Hnv _]; subst. cbn [snd] in Hv, Hnv.
-      rewrite (Hv o Hnv). reflexivity.
-Qed.
 
 (* ================================================================= = against the evident equality *)
 
@@ -931,81 +808,41 @@ Proof.
       * intros k' v' Hin. apply H. right. exact Hin.
 Qed.
 
-(* whenever = answers with a boolean (in either direction) it is the evident equality *)
-Lemma veq_sound_both : forall a b r, wf_keys a = true -> wf_keys b = true ->
-  (veq a b = Ok r -> sem_eq a b = r) /\ (veq b a = Ok r -> sem_eq a b = r).
+(* whenever = answers with a boolean it is the evident equality *)
+Lemma veq_sound : forall a b r, veq a b = Ok r -> sem_eq a b = r.
 Proof.
-  intros a. induction a as [z|f|s|x|la IH|ma IH|ps body cap self|t] using value_ind2; intros b r Ha Hb;
-    try (match goal with |- (veq ?a b = _ -> _) /\ _ => destruct (veq_scalar_l a b I) as [E1 E2] end;
-         rewrite E1, E2, (eq_scalar_sym b); split; apply eq_scalar_sem).
+  intros a. induction a as [z|f|s|x|la IH|ma IH|ps body cap self|t] using value_ind2; intros b r;
+    try (match goal with |- veq ?a b = _ -> _ => destruct (veq_scalar_l a b I) as [E1 _] end;
+         rewrite E1; apply eq_scalar_sem).
   - destruct b as [| | | |lb| | |];
-      try (match goal with |- (veq ?a ?b = _ -> _) /\ _ => destruct (veq_not_both a b I) as [E1 E2] end;
-           rewrite E1, E2, (eq_scalar_sym _ (VList la)); split; apply eq_scalar_sem).
-    rewrite !veq_list_eq, (len_differs_sym lb la), sem_eq_list.
-    destruct (len_differs la lb) eqn:L.
+      try (match goal with |- veq ?a ?b = _ -> _ => destruct (veq_not_both a b I) as [E1 _] end;
+           rewrite E1; apply eq_scalar_sem).
+    rewrite veq_list_eq, sem_eq_list. destruct (len_differs la lb) eqn:L.
     + assert (length la <> length lb).
       { intros E. apply len_differs_false in E. congruence. }
-      rewrite sem_list_go_len by assumption. split; intros H0; inversion H0; reflexivity.
-    + apply len_differs_false in L. apply wf_keys_list in Ha. apply wf_keys_list in Hb.
-      revert lb Hb L. induction la as [|x la IHl]; intros lb Hb L.
-      * destruct lb; [|discriminate]. cbn; split; intros H0; inversion H0; reflexivity.
-      * destruct lb as [|y lb]; [discriminate|].
-        inversion IH as [|? ? Hx Hr]; subst. inversion Ha as [|? ? Hax Har]; subst. inversion Hb as [|? ? Hby Hbr]; subst.
+      rewrite sem_list_go_len by assumption. intros H0; inversion H0; reflexivity.
+    + apply len_differs_false in L. revert lb L. induction la as [|x la IHl]; intros lb L.
+      * destruct lb; [|discriminate]. cbn. intros H0; inversion H0; reflexivity.
+      * destruct lb as [|y lb]; [discriminate|]. inversion IH as [|? ? Hx Hr]; subst.
         cbn [list_go sem_list_go]. cbn in L. assert (L' : length la = length lb) by lia.
-        specialize (IHl Hr Har lb Hbr L'). split.
-        -- destruct (veq x y) as [[|]| | | |] eqn:E; try discriminate.
-           ++ rewrite (proj1 (Hx y true Hax Hby) E). cbn. apply IHl.
-           ++ intros H0. inversion H0; subst. rewrite (proj1 (Hx y false Hax Hby) E). reflexivity.
-        -- destruct (veq y x) as [[|]| | | |] eqn:E; try discriminate.
-           ++ rewrite (proj2 (Hx y true Hax Hby) E). cbn. apply IHl.
-           ++ intros H0. inversion H0; subst. rewrite (proj2 (Hx y false Hax Hby) E). reflexivity.
+        specialize (IHl Hr lb L'). destruct (veq x y) as [[|]| | | |] eqn:E; try discriminate.
+        -- rewrite (Hx y true E). cbn. apply IHl.
+        -- intros H0. inversion H0; subst. rewrite (Hx y false E). reflexivity.
   - destruct b as [| | | | |mb| |];
-      try (match goal with |- (veq ?a ?b = _ -> _) /\ _ => destruct (veq_not_both a b I) as [E1 E2] end;
-           rewrite E1, E2, (eq_scalar_sym _ (VMap ma)); split; apply eq_scalar_sem).
-    rewrite !veq_map_eq, (len_differs_sym mb ma), sem_eq_map. unfold len_differs.
-    destruct (Nat.eqb (length ma) (length mb)) eqn:L; cbn [negb andb];
-      [|split; intros H0; inversion H0; reflexivity].
-    apply Nat.eqb_eq in L.
-    apply wf_keys_map in Ha. destruct Ha as [Hna Hwa]. apply wf_keys_map in Hb. destruct Hb as [Hnb Hwb].
-    rewrite Forall_forall in IH, Hwa, Hwb.
-    assert (IH1 : forall k v o q, In (k, v) ma -> In (k, o) mb -> veq v o = Ok q -> sem_eq v o = q).
-    { intros k v o q Hv Ho. exact (proj1 (IH (k, v) Hv o q (Hwa (k, v) Hv) (Hwb (k, o) Ho))). }
-    assert (IH2 : forall k v o q, In (k, v) ma -> In (k, o) mb -> veq o v = Ok q -> sem_eq v o = q).
-    { intros k v o q Hv Ho. exact (proj2 (IH (k, v) Hv o q (Hwa (k, v) Hv) (Hwb (k, o) Ho))). }
-    clear IH. split.
-    + (* receiver ma: both loops visit ma *)
-      assert (G : forall m, (forall k v, In (k, v) m -> In (k, v) ma) ->
-                  map_go veq mb m = Ok r -> sem_map_go sem_eq mb m = r).
-      { induction m as [|[k v] m IHm]; intros Hsub; cbn [map_go sem_map_go].
-        - intros H0. inversion H0. reflexivity.
-        - destruct (assoc_v k mb) as [o|] eqn:Eo; [|intros H0; inversion H0; reflexivity].
-          assert (Hv : In (k, v) ma) by (apply Hsub; left; reflexivity).
-          pose proof (assoc_v_in _ _ _ Eo) as Ho.
-          destruct (veq o v) as [[|]| | | |] eqn:E; try discriminate.
-          + rewrite (IH2 k v o true Hv Ho E). cbn. apply IHm. intros k' v' Hin. apply Hsub. right. exact Hin.
-          + intros H0. inversion H0; subst. rewrite (IH2 k v o false Hv Ho E). reflexivity. }
-      apply G. auto.
-    + (* receiver mb: the model visits mb, the specification ma *)
-      destruct r.
-      * intros H. rewrite map_go_true in H. apply sem_map_go_true.
-        intros k v Hv.
-        destruct (map_partner_swap (fun o v => veq o v = Ok true) (fun v o => sem_eq o v = true) mb ma Hnb Hna (eq_sym L) H) with (k := k) (o := v)
-          as (o & Ho & Hs); [|exact Hv|exists o; split; [exact Ho|exact Hs]].
-        intros k' vb va Hvb Hva E. exact (IH1 k' va vb true Hva Hvb E).
-      * intros H. apply map_go_false in H. destruct H as (k & vb & Hvb & Hc).
-        destruct (sem_map_go sem_eq mb ma) eqn:S; [|reflexivity]. exfalso.
-        rewrite sem_map_go_true in S.
-        destruct (map_partner_swap (fun o v => sem_eq v o = true) (fun v o => sem_eq v o = true) ma mb Hna Hnb L S) with (k := k) (o := vb)
-          as (va & Hva & Hs); [auto|exact Hvb|].
-        destruct Hc as [Hnone|(o & Ho & E)]; [congruence|].
-        rewrite Hva in Ho. inversion Ho; subst o.
-        pose proof (IH1 k va vb false (assoc_v_in _ _ _ Hva) Hvb E). congruence.
+      try (match goal with |- veq ?a ?b = _ -> _ => destruct (veq_not_both a b I) as [E1 _] end;
+           rewrite E1; apply eq_scalar_sem).
+    rewrite veq_map_eq, sem_eq_map. unfold len_differs.
+    destruct (Nat.eqb (length ma) (length mb)); cbn [negb andb]; [|intros H0; inversion H0; reflexivity].
+    revert r. induction ma as [|[k v] ma IHm]; intros r; cbn [map_all sem_map_go].
+    + intros H0; inversion H0; reflexivity.
+    + inversion IH as [|? ? Hv Hr]; subst. cbn [snd] in Hv. intros H.
+      apply worse_ok in H. destruct H as (q1 & q2 & E1 & E2 & ->).
+      rewrite (IHm Hr q2 E2). f_equal. unfold entry_res in E1.
+      destruct (assoc_v k mb) as [o|]; [exact (Hv o q1 E1)|inversion E1; reflexivity].
 Qed.
 
-Lemma veq_sound : forall a b r, wf_keys a = true -> wf_keys b = true -> veq a b = Ok r -> sem_eq a b = r.
-Proof. intros a b r Ha Hb. apply veq_sound_both; assumption. Qed.
-
 (* ---------- ... and it finds every equality (ints within the exact range) ---------- *)
+
 
 Lemma eq_scalar_complete : forall a b,
   match a, b with VList _, VList _ | VMap _, VMap _ => False | _, _ => True end ->
@@ -1063,12 +900,11 @@ Proof.
     constructor; auto.
   - destruct b as [| | | | |mb| |]; try (cbn; discriminate).
     rewrite sem_eq_map, veq_map_eq. unfold len_differs. intros H. apply andb_true_iff in H. destruct H as [L H].
-    rewrite L. cbn [negb]. apply map_go_true. rewrite sem_map_go_true in H.
+    rewrite L. cbn [negb]. apply map_all_true. rewrite sem_map_go_true in H.
     apply wf_keys_map in Ha. destruct Ha as [Hna Hwa]. apply wf_keys_map in Hb. destruct Hb as [Hnb Hwb].
     apply small_ints_map in Sa. apply small_ints_map in Sb. rewrite Forall_forall in IH, Hwa, Hwb, Sa, Sb.
     intros k v Hv. destruct (H k v Hv) as (o & Ho & Hs). exists o. split; [exact Ho|].
     pose proof (assoc_v_in _ _ _ Ho) as Hino.
-    apply veq_sym_true; [exact (Hwa (k, v) Hv)|exact (Hwb (k, o) Hino)|].
     apply (IH (k, v) Hv o); [exact (Hwa (k, v) Hv)|exact (Hwb (k, o) Hino)|exact (Sa (k, v) Hv)|exact (Sb (k, o) Hino)|exact Hs].
 Qed.
 
